@@ -81,6 +81,34 @@ def monitor(ctx, extended=False):
             check_point(ctx, St, b, classes, hist=[list(a)])
             c = (Dp, d, eps, ctx.rng.choice([0.8e-6, 1.1e-6, 1.4e-6]), b[4], rhos, Cvs)
             check_point(ctx, St, c, classes, hist=[list(a), list(b)])
+    # call forms: the two optional arguments given by position (a documented form) must mean what their names say
+    for _ in range(ctx.n(40, 2000)):
+        a = pt(ctx.rng)
+        ctx.count('evaluations')
+        try:
+            with time_limit(30):
+                v0 = St.vls_FBSB(*a)
+                v1 = St.vls_FBSB(*a, 20)
+                v2 = St.vls_lsdv(*a, 20, 0.415 / 1000)
+                v3 = St.vls_FBSB(*a, max_steps=20, e=0.415 / 1000)
+            if not (v0 == v1 == v2 == v3):
+                ctx.violation(f'vls_FBSB(*a) = {v0!r}, vls_FBSB(*a, 20) = {v1!r}, vls_lsdv(*a, 20, 0.415/1000) = {v2!r}, keyword form {v3!r}: the defaults given explicitly change the result',
+                              {'args': list(a)}, key='call-form')
+        except Exception as e:   # noqa
+            ctx.violation(f'a positional / keyword call form raised {type(e).__name__}: {e}', {'args': list(a)}, key='call-form')
+    # far-apart consecutive queries (a thick bed in a small loop, then a lean slurry in a large line, and back): each answer depends on its own arguments only
+    for _ in range(ctx.n(30, 1500)):
+        small = (ctx.rng.uniform(0.1, 0.15), ctx.rng.uniform(2e-4, 1e-3), E.EPS, 1.0e-6, 1.0, 2.65, ctx.rng.uniform(0.35, 0.45))
+        large = (ctx.rng.uniform(1.0, 1.2), ctx.rng.uniform(2e-4, 2e-3), E.EPS, 1.0e-6, 1.0, ctx.rng.uniform(2.65, 3.5), ctx.rng.uniform(0.01, 0.03))
+        if ctx.rng.random() < 0.5:
+            # wider than E (the property names no envelope for this clause): light solids in a laboratory loop, then a worn dredge line with a thin bed
+            small = (ctx.rng.choice([0.1016, 0.1524]), ctx.rng.choice([2e-4, 5e-4, 1e-3, 2e-3]), ctx.rng.choice([4.5e-5, 2e-4]), 1.0e-6, 1.0, ctx.rng.choice([1.5, 2.65]), ctx.rng.uniform(0.40, 0.45))
+            large = (ctx.rng.choice([0.6, 0.762, 0.9, 1.0, 1.2]), ctx.rng.choice([1e-4, 2e-4]), ctx.rng.choice([2e-4, 5e-4]), 1.0e-6, 1.0, ctx.rng.choice([2.65, 4.5]), 0.01)
+        seq = [small, large, small] if ctx.rng.random() < 0.5 else [large, small, large]
+        hist = []
+        for a in seq:
+            check_point(ctx, St, a, set(), hist=list(hist) or None)
+            hist.append(list(a))
     # beds that nearly fill the pipe (outside E): the stated clauses are evaluated there too; a missed crossing there is the listed finding
     for _ in range(ctx.n(150, 8000)):
         Dp, d, eps, nu, rhol, rhos, _ = pt(ctx.rng)
